@@ -875,3 +875,53 @@ Theorem rp_window_exact : forall W b12 h,
 Proof.
   intros W b12 h. exact (proj1 (rp_run_refines W b12 h rp_init rp_abs_init rp_R_init)).
 Qed.
+
+(* ------------------------------------------------------------------ nonces of the replies *)
+
+Lemma rp_reply_nonces_own_lb : forall h rs c n,
+  In (RpNonceOwn n) (rp_reply_nonces true c h rs) -> c <= n.
+Proof.
+  induction h as [|m t IH]; intros rs c n Hin; [destruct Hin|].
+  destruct rs as [|r rt]; [destruct Hin|]. cbn [rp_reply_nonces] in Hin.
+  destruct (rp_m_kind m); [|apply IH in Hin; exact Hin].
+  destruct (rp_reply_own_piv true r) as [[|]|].
+  - destruct Hin as [Hn|Hin]; [inversion Hn; lia | apply IH in Hin; lia].
+  - destruct Hin as [Hn|Hin]; [discriminate | apply IH in Hin; exact Hin].
+  - apply IH in Hin; exact Hin.
+Qed.
+
+Lemma rp_reply_nonces_req_accepted : forall h rs c p,
+  In (RpNonceReq p) (rp_reply_nonces true c h rs) -> In p (rp_accepted_of h rs).
+Proof.
+  induction h as [|m t IH]; intros rs c p Hin; [destruct Hin|].
+  destruct rs as [|r rt]; [destruct Hin|]. cbn [rp_reply_nonces rp_accepted_of] in *.
+  destruct (rp_m_kind m).
+  - destruct r; cbn [rp_reply_own_piv rp_is_accept] in *;
+      try (apply IH in Hin; exact Hin).
+    + destruct Hin as [Hn|Hin]; [inversion Hn; left; reflexivity | right; apply IH in Hin; exact Hin].
+    + destruct Hin as [Hn|Hin]; [discriminate | apply IH in Hin; exact Hin].
+  - destruct (rp_is_accept r); [right|]; apply IH in Hin; exact Hin.
+Qed.
+
+Lemma rp_reply_nonces_nodup : forall h rs c,
+  NoDup (rp_accepted_of h rs) -> NoDup (rp_reply_nonces true c h rs).
+Proof.
+  induction h as [|m t IH]; intros rs c Hnd; [constructor|].
+  destruct rs as [|r rt]; [constructor|]. cbn [rp_reply_nonces rp_accepted_of] in *.
+  destruct (rp_m_kind m).
+  - destruct r; cbn [rp_reply_own_piv rp_is_accept] in *; try (apply IH; exact Hnd).
+    + inversion Hnd as [|? ? Hnot Hnd']; subst. constructor; [|apply IH; exact Hnd'].
+      intro Hin. apply rp_reply_nonces_req_accepted in Hin. contradiction.
+    + constructor; [|apply IH; exact Hnd].
+      intro Hin. apply rp_reply_nonces_own_lb in Hin. lia.
+  - apply IH. destruct (rp_is_accept r); [inversion Hnd; assumption | exact Hnd].
+Qed.
+
+(* the recipient's Sender Key is never used twice with the same nonce for its replies: the
+   request's nonce only for a request that is accepted (at most once), everything that can be
+   sent again (the Echo challenge) under a fresh Partial IV of its own *)
+Theorem rp_reply_nonces_unique : forall W b12 h c,
+  NoDup (rp_reply_nonces true c h (fst (rp_run rp_fixed W b12 rp_init h))).
+Proof.
+  intros W b12 h c. apply rp_reply_nonces_nodup. exact (rp_at_most_once W b12 h).
+Qed.
